@@ -90,16 +90,16 @@ inductive Out where
 deriving Repr, DecidableEq
 
 /-- `makeResponse` -/
-def makeResponse (id reqID acs issueInstant status message issuer : String) : Msg :=
+def mkResponse (id reqID acs issueInstant status message issuer : String) : Msg :=
   { id := id, inResponseTo := reqID, destination := acs, issueInstant := issueInstant, status := status,
     statusMessage := message, issuer := issuer, assertion := none }
 
 /-- `Response.makeFailedResponse` -/
 def failedMsg (i : In) (reqID acs status message : String) : Msg :=
-  makeResponse (i.ids 0) reqID acs i.issueInstant status message i.issuer
+  mkResponse (i.ids 0) reqID acs i.issueInstant status message i.issuer
 
 /-- `makeAssertion` (authN = true) -/
-def makeAssertion (id reqID acs issueInstant untilInstant issuer : String) (nameID : Option saml_NameIDType)
+def mkAssertion (id reqID acs issueInstant untilInstant issuer : String) (nameID : Option saml_NameIDType)
     (attrs : List (Option saml_AttributeType)) (audience : String) : Assertion :=
   { id := id, issueInstant := issueInstant, issuer := issuer, nameID := nameID, scInResponseTo := reqID,
     scNotOnOrAfter := untilInstant, scRecipient := acs, notBefore := issueInstant, notOnOrAfter := untilInstant,
@@ -131,12 +131,12 @@ def callback (o : Ora) (i : In) : Out :=
   if kerr.isSome then fail statusInvalidAttr else
   match Attributes_GetNameID o (some attrs), Attributes_GetSAML o (some attrs) with
   | .ok nameID, .ok samlAttrs =>
-    let resp := makeResponse (i.ids 0) rec.reqID rec.acs i.issueInstant statusSuccess "" i.issuer
-    let assertion := makeAssertion (i.ids 1) rec.reqID rec.acs i.issueInstant i.untilInstant i.issuer nameID samlAttrs audience
+    let resp := mkResponse (i.ids 0) rec.reqID rec.acs i.issueInstant statusSuccess "" i.issuer
+    let assertion := mkAssertion (i.ids 1) rec.reqID rec.acs i.issueInstant i.untilInstant i.issuer nameID samlAttrs audience
     if !i.signOk then
       -- the failed response is built after the successful one: it draws the third identifier
       .reply (deliver rec.acs rec.binding rec.relay)
-        (makeResponse (i.ids 2) rec.reqID rec.acs i.issueInstant statusResponder "failed to create response" i.issuer) .none
+        (mkResponse (i.ids 2) rec.reqID rec.acs i.issueInstant statusResponder "failed to create response" i.issuer) .none
     else .reply (deliver rec.acs rec.binding rec.relay) { resp with assertion := some assertion } (sigStyle rec.acs rec.binding)
   | _, _ => .panic
 
